@@ -57,20 +57,16 @@ fn cnf_checks(ctx: &mut Ctx, rng: &mut Rng, cl: &Clauses) {
     let t = clauses_tt(cl, n);
     ctx.count("cnfs", 1);
     ctx.case_eval(if t.is_trivial() { None } else { Some(crate::rng::hash_str(&info.to_string())) });
-    if cnf.num_vars() != n {
-        ctx.violation("cnf.num_vars", "num_vars is not max label + 1", json!({"got": cnf.num_vars(), "expected": n, "input": info}));
+    // the constructor may normalise (drop duplicates, reorder); what must hold is that the
+    // constructed formula has the models of the clause list over variables 0..n
+    if cnf.num_vars() > n {
+        ctx.violation("cnf.num_vars", "num_vars exceeds the largest label + 1", json!({"got": cnf.num_vars(), "largest_label_plus_one": n, "input": info}));
         return;
     }
-    if cnf.clauses().len() != cl.len() {
-        ctx.violation("cnf.clauses", "constructor changed the number of clauses", json!({"input": info}));
-    }
-    // the stored clauses are the given ones as literal sets
-    for (i, c) in cnf.clauses().iter().enumerate() {
-        let got: BTreeSet<(usize, bool)> = c.iter().map(|l| (l.label().value_usize(), l.polarity())).collect();
-        let want: BTreeSet<(usize, bool)> = cl[i].iter().cloned().collect();
-        if got != want {
-            ctx.violation("cnf.clause_set", "a stored clause is not the given literal set", json!({"clause": i, "input": info}));
-        }
+    let stored = Tt::from_fn(n, |a| cnf.clauses().iter().all(|c| c.iter().any(|l| ((a >> l.label().value_usize()) & 1 == 1) == l.polarity())));
+    if stored != t {
+        ctx.violation("cnf.clause_set", "the constructed clause list does not have the models of the given clause list",
+            json!({"observed": stored.hex(), "expected": t.hex(), "input": info}));
     }
     // eval on every assignment
     for a in 0..(1usize << n) {
